@@ -212,11 +212,59 @@ type DSItem struct {
 
 func (DSItem) TableName() string { return "ds_items" }
 
+// POwner / PSOwner own a polymorphic has-many relation: Select("Items") on a Delete
+// makes gorm delete the owned items first, with conditions of their own.
+type PItem struct {
+	ID         int `gorm:"primaryKey"`
+	Name       string
+	HolderID   int
+	HolderType string
+}
+
+func (PItem) TableName() string { return "p_things" }
+
+type POwner struct {
+	ID    int `gorm:"primaryKey"`
+	Ca    int
+	Cb    int
+	Cs    string
+	Cn    *int
+	Ct    *string
+	Cor   int
+	Band  string
+	Mark  int
+	Items []PItem `gorm:"polymorphic:Holder"`
+}
+
+func (POwner) TableName() string { return "p_owners" }
+
+type PSOwner struct {
+	ID        int `gorm:"primaryKey"`
+	Ca        int
+	Cb        int
+	Cs        string
+	Cn        *int
+	Ct        *string
+	Cor       int
+	Band      string
+	Mark      int
+	DeletedAt gorm.DeletedAt
+	Items     []PItem `gorm:"polymorphic:Holder"`
+}
+
+func (PSOwner) TableName() string { return "ps_owners" }
+
+const polyItemsDDL = "CREATE TABLE p_things (id integer PRIMARY KEY, name text, holder_id integer, holder_type text)"
+
+// polyItems: two items per owner table and owner id 1 / 2
+const polyItemsRows = "INSERT INTO p_things VALUES (1,'a',1,'p_owners'),(2,'b',1,'p_owners'),(3,'c',2,'p_owners'),(4,'a',1,'ps_owners'),(5,'b',2,'ps_owners')"
+
 type modelKind struct {
 	Name    string
 	Spec    cond.TableSpec
 	Type    reflect.Type
 	ZeroRow bool // the table holds a row whose key is 0 (composite: 0,0)
+	Poly    bool // owns polymorphic items (table p_things)
 }
 
 func (m modelKind) Zero() interface{} { return reflect.New(m.Type).Interface() } // &T{}
@@ -270,10 +318,12 @@ var models = map[string]modelKind{
 	"compkey":       {Name: "compkey", Spec: cond.TableSpec{Name: "c_items", Extra: []string{"k2"}}, Type: reflect.TypeOf(CItem{}), ZeroRow: true},
 	"defaults":      {Name: "defaults", Spec: cond.TableSpec{Name: "d_items", Extra: []string{"flag", "num", "str"}}, Type: reflect.TypeOf(DItem{})},
 	"defaults-soft": {Name: "defaults-soft", Spec: cond.TableSpec{Name: "ds_items", Soft: true, Extra: []string{"flag", "num", "str"}}, Type: reflect.TypeOf(DSItem{})},
+	"poly":          {Name: "poly", Spec: cond.TableSpec{Name: "p_owners"}, Type: reflect.TypeOf(POwner{}), Poly: true},
+	"poly-soft":     {Name: "poly-soft", Spec: cond.TableSpec{Name: "ps_owners", Soft: true}, Type: reflect.TypeOf(PSOwner{}), Poly: true},
 	"compkey-soft":  {Name: "compkey-soft", Spec: cond.TableSpec{Name: "cs_items", Soft: true, Extra: []string{"k2"}}, Type: reflect.TypeOf(CSItem{}), ZeroRow: true},
 }
 
-var modelNames = []string{"plain", "soft", "soft2", "softcol", "softemb", "soft2emb", "appkey", "appkey-soft", "compkey", "compkey-soft", "defaults", "defaults-soft"}
+var modelNames = []string{"plain", "soft", "soft2", "softcol", "softemb", "soft2emb", "appkey", "appkey-soft", "compkey", "compkey-soft", "defaults", "defaults-soft", "poly", "poly-soft"}
 
 // basic models are enumerated to the full length, the variants one call shorter
 func basicModel(n string) bool { return n == "plain" || n == "soft" }
@@ -358,6 +408,12 @@ var alphabet = func() []freeCall {
 		}},
 		freeCall{Name: `Unscoped()`, Apply: func(db, _ *gorm.DB, _ modelKind) *gorm.DB { return db.Unscoped() }},
 		freeCall{Name: `Select("mark")`, Apply: func(db, _ *gorm.DB, _ modelKind) *gorm.DB { return db.Select("mark") }},
+		// relation names in Select: on Delete the selected has-one / has-many / many2many records are
+		// deleted first by nested statements (for models without such a relation: an unknown column)
+		freeCall{Name: `Select("Items","mark")`, Apply: func(db, _ *gorm.DB, _ modelKind) *gorm.DB { return db.Select("Items", "mark") }},
+		freeCall{Name: `Select(Associations,"mark")`, Apply: func(db, _ *gorm.DB, _ modelKind) *gorm.DB {
+			return db.Select(clause.Associations, "mark")
+		}},
 		freeCall{Name: `Omit("ca")`, Apply: func(db, _ *gorm.DB, _ modelKind) *gorm.DB { return db.Omit("ca") }},
 		freeCall{Name: `Table(t)`, Apply: func(db, _ *gorm.DB, m modelKind) *gorm.DB { return db.Table(m.Spec.Name) }},
 		freeCall{Name: `Model(&T{})`, Apply: func(db, _ *gorm.DB, m modelKind) *gorm.DB { return db.Model(m.Zero()) }},
@@ -613,6 +669,9 @@ var primes = []struct {
 		return q.Count(&n).Error
 	}},
 	{`Find`, func(q *gorm.DB, m modelKind) error { return q.Find(m.EmptySlicePtr()).Error }},
+	{`FindInBatches`, func(q *gorm.DB, m modelKind) error {
+		return q.FindInBatches(m.EmptySlicePtr(), 2, func(tx *gorm.DB, batch int) error { return nil }).Error
+	}},
 }
 
 var primeIndex = func() map[string]int {
@@ -649,11 +708,19 @@ func open(m modelKind, agu string, sdt string) (*testdb.DB, *gorm.DB, error) {
 	d := testdb.Open(testdb.Options{Config: cfg, NoReturning: sdt == "NoReturning"})
 	if err := m.Spec.Create(d.SQL); err != nil {
 		d.Close()
-		return nil, nil, err
+		return nil, nil, fmt.Errorf("create %s: %w", m.Spec.Name, err)
 	}
 	if err := m.Spec.Insert(d.SQL, baseRows(m)); err != nil {
 		d.Close()
-		return nil, nil, err
+		return nil, nil, fmt.Errorf("insert %s: %w", m.Spec.Name, err)
+	}
+	if m.Poly {
+		for _, q := range []string{polyItemsDDL, polyItemsRows} {
+			if _, err := d.SQL.Exec(q); err != nil {
+				d.Close()
+				return nil, nil, fmt.Errorf("polymorphic items: %w", err)
+			}
+		}
 	}
 	db := d.DB
 	if agu == "session" {
@@ -1110,7 +1177,7 @@ func TestC09Exhaustive(t *testing.T) {
 	if maxLen >= 3 {
 		pres = []string{"", `Where("")`, `Unscoped()`, `Or(map{})`}
 	}
-	for _, mn := range []string{"plain", "soft", "soft2", "softemb", "appkey-soft", "compkey"} {
+	for _, mn := range []string{"plain", "soft", "soft2", "softemb", "appkey-soft", "compkey", "poly"} {
 		for _, pr := range primes {
 			for _, dv := range derives {
 				for _, pre := range pres {
@@ -1191,6 +1258,12 @@ func TestC09Random(t *testing.T) {
 			k := x.N(len(c.Calls) + 1)
 			c.Pre, c.Calls = c.Calls[:k:k], c.Calls[k:]
 			for i, name := range c.Pre {
+				if strings.HasPrefix(name, `Select("Items"`) || strings.HasPrefix(name, `Select(Associations`) {
+					c.Pre[i] = `Select("mark")` // a relation name is no column the preparing query could select
+				}
+				if c.Prime == "FindInBatches" && strings.HasPrefix(c.Pre[i], "Select(") {
+					c.Pre[i] = `Where("")` // the batched read needs the primary key among the selected columns
+				}
 				if name == "Session{NewDB}" {
 					c.Pre[i] = "WithContext(ctx)" // a new statement would lose the Model the preparing operation needs
 				}
